@@ -137,9 +137,9 @@ def run_real(case, max_steps=12000):
   world = fakecourier.world()
   orig_submit = world.submit
 
-  def submit(address, method, args, kwargs):
+  def submit(address, method, args, kwargs, *more, **kw):
     # a call to a stopped server never completes; stand for the caller's deadline: fail it at once (code 4)
-    fut = orig_submit(address, method, args, kwargs)
+    fut = orig_submit(address, method, args, kwargs, *more, **kw)
     if not fut.done():
       world.fail_hung(address)
     return fut
